@@ -97,22 +97,23 @@ def loop_paths(ctx, heap=None, collections=None, havoc_on_call=True, bind=None, 
         st.env[p] = I.value_for_type(p, ft.lookup(p, f.node))
     st.env["max_time"] = Poly.const(M_MAX)
     st.env["unit_time"] = Poly.sym("unit_time")
-    # locals assigned before the loop (e.g. `mode`) : evaluate the straight-line prologue assignments of constants
-    for s in f.body():
-        if s is loop:
-            break
-        if isinstance(s, ast.Assign) and len(s.targets) == 1 and isinstance(s.targets[0], ast.Name) and isinstance(s.value, ast.Constant):
-            st.env[s.targets[0].id] = I.eval(s.value, st, type("F", (), {"ft": ft, "func": f, "stack": (), "uid": -1})())
-        if isinstance(s, ast.If):
-            # `if task_performed_mode == "multi-workers": mode = 1` -- the only accepted mode (anything else raises earlier)
-            for n in s.body:
-                if isinstance(n, ast.Assign) and len(n.targets) == 1 and isinstance(n.targets[0], ast.Name) and isinstance(n.value, ast.Constant) \
-                        and not any(isinstance(x, ast.Raise) for x in s.body):
-                    st.env[n.targets[0].id] = Poly.const(n.value.value) if isinstance(n.value.value, (int, float)) and not isinstance(n.value.value, bool) else Const(n.value.value)
-    st.heap[("self", "time")] = Poly.sym("self.time")
-    st.bounds["self.time"] = (0, None)
+    st.env["task_performed_mode"] = Const("multi-workers")  # the only accepted mode (anything else raises before the loop)
     for k, v in (bind or {}).items():
         st.env[k] = v
+    # Locals established before the loop (e.g. `mode`, a pre-computed set of absence steps): the prologue is interpreted
+    # with the same bindings; everything it calls is opaque.  Only its local names are kept -- the heap is what the loop
+    # body finds at an arbitrary iteration, i.e. unknown unless the rule seeds it.
+    body = f.body()
+    pre = body[: body.index(loop)] if loop in body else []
+    if pre:
+        pre_outs = [(s0, ex) for s0, ex in I.run_block(f, pre, st=st) if ex is None]
+        if len(pre_outs) != 1:
+            raise AnalysisError(f"simulate() prologue has {len(pre_outs)} normal paths (expected 1)")
+        env = pre_outs[0][0].env
+        st = State()
+        st.env = dict(env)
+    st.heap[("self", "time")] = Poly.sym("self.time")
+    st.bounds["self.time"] = (0, None)
     outs = I.run_block(f, loop.body, st=st, heap=heap)
     res = []
     for s1, ex in outs:
